@@ -14,7 +14,7 @@ import itertools
 import json
 from pathlib import Path
 
-from . import core, local_known
+from . import core
 from . import flat_export as fe
 
 SEEDS = [
@@ -39,10 +39,10 @@ SEEDS = [
     "x = 10**100\ny = 1e400\nz = 0.1 + 2j\n",
 ]
 
-# deliberately adversarial (expected to exhibit the recorded findings)
+# deliberately adversarial (the first two exhibited the findings F09 / F11, now repaired; the others exhibit F15a-d)
 ADVERSARIAL_SEEDS = [
     "@d\nasync def f():\n    pass\n",
-    "x = b\"it's\"\n",
+    "x = b\"it's\"\ny = -b\"it's\"\n",
     "x = 'a/kind=b'\n",
     "x = [y, ', ctx=Load()']\nz = [y, '']\n",
     "f(', ctx=x', g())\nf('', g())\n",
@@ -52,9 +52,9 @@ ADVERSARIAL_SEEDS = [
 PASSES = ["suppress_kinds", "suppress_alias_pos", "suppress_posonlyargs", "backport_all_constants",
           "simplify_negative_literals", "unquote"]
 
+# (the former findings F09 `async def` body order and F11 b"it's" -> Num are repaired in /repo: a reappearance is an
+# unexplained violation)
 SIG = {
-    "async-def": "C15:AsyncFunctionDef-body-not-moved-last",
-    "bytes-repr-double-quoted": "C15:bytes-constant-whose-repr-starts-with-b\"",
     "str-contains-/kind=": "C15:str-constant-containing-/kind=",
     "str-contains-,ctx=": "C15:str-constant-containing-,ctx=",
     "bytes-contains-=quote": "C15:bytes-constant-containing-=quote",
@@ -72,7 +72,8 @@ class _Neutralise(ast.NodeTransformer):
     """Remove every quirk feature except those in `keep` (a set of feature names)."""
 
     def __init__(self, keep):
-        self.keep = keep
+        # `async def` and double-quoted bytes reprs are no longer quirks (repaired in /repo): never neutralised
+        self.keep = set(keep) | {"async-def", "bytes-repr-double-quoted"}
 
     def visit_AsyncFunctionDef(self, n):
         self.generic_visit(n)
@@ -162,13 +163,6 @@ class Checker:
         impl = fe.flat_lines(self.fa.flatten_ast(tree))
         ex = fe.export(tree)
         model = self.drv.call("c15.flatten", tree=ex)["lines"]
-        if impl != model:
-            # the theorems hold for every `Cfg`: the documented reordering (body last in *all* definitions)
-            # is a model of the code too, should /repo adopt it
-            alt = self.drv.call("c15.flatten", tree=ex, cfg="spec")["lines"]
-            if impl == alt:
-                model = alt
-                self.ctx.dist("model:documented-cfg")
         r = self.drv.call("c15.spec", tree=ex)
         spec = r["lines"]
         self.last_wf = (r["wf_unquote"], r["wf_kinds"], r["wf_posonly"], r["wf_alias"])
@@ -503,7 +497,7 @@ def run(ctx):
         "lines of the flat AST contain no newline (repr() of every scalar is single-line)",
         "model alphabet for \\d and \\w: ASCII",
     ]
-    if not local_known.unexplained(ctx) and (not ctx.proofs_ok or ctx.broken):
+    if not fe.unexplained(ctx, core) and (not ctx.proofs_ok or ctx.broken):
         ctx.violations.append({
             "no_input": True,
             "what": "a proof or the correspondence no longer checks",
@@ -513,7 +507,6 @@ def run(ctx):
                                    "equals the specification on every input explored"},
         })
     ctx.broken = sorted(set(ctx.broken))
-    local_known.apply(ctx)
     return core.finish(ctx)
 
 
